@@ -506,3 +506,16 @@ class OptionalDemandOrigin(M.Origin):
         if engine is None:
             engine = get_current_engine()
         return -engine.max(-q, -self.disturbances["d"])  # min(q, d)
+
+
+class QueuesFirstNetwork(M.Network):
+    """A Network subclass that lists its elements in another order (the origins with their queues first, then the links, then
+    the destinations) by overriding the public `elements` property."""
+
+    _vf_user = True
+
+    @property
+    def elements(self):
+        from itertools import chain
+
+        return chain(self.origins, (l_ for _u, _w, l_ in self.links), self.destinations)
